@@ -394,7 +394,7 @@ func slotRule(p *core.Prog, r *core.Report, rule, fnName, check, deadline, count
 // C05
 
 func checkC05(p *core.Prog, r *core.Report) {
-	r.Explanation = "Decides structural necessary conditions of wait timeouts: (R1) every store to a waiter's deadline is now + T*unit + 1 with the unit selected by the matching flag tests on the path and the period widened to int64 before scaling (tabled: keep-alive re-arm, clamp to the sweeper position); (R2) the second-wheel sweeper hands an entry to the timeout queue only on timeoutTime <= now (never early) and the long-wait table is swept Len() times before it is retired (holes are skipped, not taken as the end); (R3) wheel constants (power of two, mask, back-off < length) and the slot chosen by AddTimeOut is never behind the sweeper; (R4) a request is queued only with Timeout > 0; otherwise it is answered TIMEOUT once (C03-R1) and its lock object freed; (R5) a sweeper re-arms an entry only after testing its tombstone clear (the Add* functions reset it). NOT decided: the upper bound T+2 s and eventual firing (sweeper liveness, scheduling), hand-over timing between wheel, long table and millisecond wheel."
+	r.Explanation = "Decides structural necessary conditions of wait timeouts: (R1) every store to a waiter's deadline is now + T*unit + 1 with the unit selected by the matching flag tests on the path and the period widened to int64 before scaling (tabled: keep-alive re-arm, clamp to the sweeper position); (R2) the second-wheel sweeper hands an entry to the timeout queue only on timeoutTime <= now (never early) and the long-wait table is swept Len() times before it is retired (holes are skipped, not taken as the end); (R3) wheel constants (power of two, mask, back-off < length) and the slot chosen by AddTimeOut is never behind the sweeper; (R4) a request is queued only with Timeout > 0; otherwise it is answered TIMEOUT once (C03-R1) and its lock object freed; (R5) a sweeper re-arms an entry only after testing its tombstone clear (the Add* functions reset it). (R9) the millisecond sweep hands every waiter whose Timeout is at or beyond the millisecond wheel's modulus over to the second wheel (threshold of the guarding comparison <= the modulus read from AddMillisecondTimeOut), so a slot that came round early does not fire it. NOT decided: the upper bound T+2 s and eventual firing (sweeper liveness, scheduling), hand-over timing between wheel, long table and millisecond wheel."
 	r.Assumptions = []string{"Go type checker and go/ssa are correct for /repo", "the server clock LockDB.currentTime is second-granular and monotone"}
 	deadlineRule(p, r, deadlineSpec{rule: "C05/R1", field: fk("server.Lock", "timeoutTime"), amount: "Timeout", flagName: "TimeoutFlag",
 		exceptions: map[string]map[string]string{
@@ -471,7 +471,7 @@ func c05R4(p *core.Prog, r *core.Report) {
 // C06
 
 func checkC06(p *core.Prog, r *core.Report) {
-	r.Explanation = "Decides structural necessary conditions of hold expiry: (R1) every store to a hold's deadline is start + E*unit + 1 (start = current time, or the lock's startTime set from the current time on the same path) with the unit selected by the matching flag tests and the period widened before scaling, or the never-expiring sentinel under the unlimited flag (tabled: not-yet-granted zero, keep-alive and follower re-arm, clamp to the sweeper); (R2) the sweeper hands a wheel entry to the expiry queue only on expriedTime <= now, and sweeps the long table Len() times before retiring it; (R3) wheel constants incl. back-off+2 <= 10 and the slot chosen by AddExpried is never behind the sweeper; (R5) doExpried's effect order on the live path: tombstone, depth subtraction, RemoveLock under the mutex, then one EXPRIED reply and the wake-up pass; (R6) when an update or re-lock changes the deadline of a hold that sits in the long-wait table, the entry is removed under its old deadline and re-inserted (with its reference) - skipped only when the deadline is unchanged; (R7) a sweeper re-arms an entry only after testing its tombstone clear; (R8) a recycled long-wait bucket has every field re-assigned that freeing it overwrote; (R9) the millisecond sweep compares a field an update rewrites before it ends a hold (it does not: known finding). NOT decided: the upper bounds E+2 s / 10 s (sweeper liveness), behaviour across the 16-slot wrap under load."
+	r.Explanation = "Decides structural necessary conditions of hold expiry: (R1) every store to a hold's deadline is start + E*unit + 1 (start = current time, or the lock's startTime set from the current time on the same path) with the unit selected by the matching flag tests and the period widened before scaling, or the never-expiring sentinel under the unlimited flag (tabled: not-yet-granted zero, keep-alive and follower re-arm, clamp to the sweeper); (R2) the sweeper hands a wheel entry to the expiry queue only on expriedTime <= now, and sweeps the long table Len() times before retiring it; (R3) wheel constants incl. back-off+2 <= 10 and the slot chosen by AddExpried is never behind the sweeper; (R5) doExpried's effect order on the live path: tombstone, depth subtraction, RemoveLock under the mutex, then one EXPRIED reply and the wake-up pass; (R6) when an update or re-lock changes the deadline of a hold that sits in the long-wait table, the entry is removed under its old deadline and re-inserted (with its reference) - skipped only when the deadline is unchanged; (R7) a sweeper re-arms an entry only after testing its tombstone clear; (R8) a recycled long-wait bucket has every field re-assigned that freeing it overwrote; (R9) the millisecond sweep compares a field an update rewrites before it ends a hold (it does not: known finding). (R10) the millisecond expiry sweep hands every hold whose Expried is at or beyond the wheel's modulus over to the second wheel (same threshold rule as C05/R9). NOT decided: the upper bounds E+2 s / 10 s (sweeper liveness), behaviour across the 16-slot wrap under load."
 	r.Assumptions = []string{"Go type checker and go/ssa are correct for /repo", "the server clock LockDB.currentTime is second-granular and monotone"}
 	deadlineRule(p, r, deadlineSpec{rule: "C06/R1", field: fk("server.Lock", "expriedTime"), amount: "Expried", flagName: "ExpriedFlag",
 		exceptions: map[string]map[string]string{
